@@ -365,6 +365,10 @@ func doApply(dir string, orig []byte, mode, via string, cs []call) string {
 		}
 		return "err " + c + suffix
 	}
+	if st, serr := os.Stat(outpath); serr == nil && st.Size() > 64<<20 {
+		// never read back a runaway output (e.g. a size computed with wrapped arithmetic)
+		return fmt.Sprintf("ok size=%d", st.Size()) + suffix
+	}
 	got, rerr := os.ReadFile(outpath)
 	if rerr != nil {
 		return "err output-missing" + suffix
